@@ -72,27 +72,27 @@ Fixpoint consistent_with (gs : list gfile) (rel0 : list Q) (chunks : list (list 
 (** [np.allclose(slice_times, 0.0)] *)
 Definition all_zero (l : list Q) : bool := forallb (fun x => close1 np_rtol np_atol x 0%Q) l.
 
-(** lines 918-949; [fin] = file ids after the reversal, [nv] = number of volumes, [n_slices] *)
-Definition slice_times_arg (gs : list gfile) (fin : list nat) (nv n_slices : nat) : res (option (list Q)) :=
-  match fin with
-  | [] => Err ECrash                                    (* IndexError: unreachable *)
-  | id0 :: _ =>
-      match glookup gs id0 with
-      | None => Err ECrash
-      | Some g0 =>
-          let fpv := length fin / nv in
-          if (1 <? fpv) && is_some (g_acq_time g0) then
-            match rel_times gs (firstn n_slices fin) with
-            | Err e => Err e
-            | Ok rel0 =>
-                match consistent_with gs rel0 (map (fun k => chunk_at n_slices k fin) (seq 1 (nv - 1))) with
-                | Err e => Err e
-                | Ok ok => Ok (if ok && negb (all_zero rel0) then Some rel0 else None)
-                end
-            end
-          else Ok None
-      end
+(** [all(file_info[0].get_meta('AcquisitionTime') != None for file_info in self._files_info)]
+    (fix 75eb235: every file, not only the first) *)
+Definition has_acq (gs : list gfile) (id : nat) : bool :=
+  match glookup gs id with
+  | Some g => is_some (g_acq_time g)
+  | None => false
   end.
+
+(** lines 918-950; [fin] = file ids after the reversal, [nv] = number of volumes, [n_slices] *)
+Definition slice_times_arg (gs : list gfile) (fin : list nat) (nv n_slices : nat) : res (option (list Q)) :=
+  let fpv := length fin / nv in
+  if (1 <? fpv) && forallb (has_acq gs) fin then
+    match rel_times gs (firstn n_slices fin) with
+    | Err e => Err e
+    | Ok rel0 =>
+        match consistent_with gs rel0 (map (fun k => chunk_at n_slices k fin) (seq 1 (nv - 1))) with
+        | Err e => Err e
+        | Ok ok => Ok (if ok && negb (all_zero rel0) then Some rel0 else None)
+        end
+    end
+  else Ok None.
 
 Definition header_of (gs : list gfile) (go : geom_out) : res hdr_out :=
   let n := go_nifti go in
